@@ -202,7 +202,7 @@ func alphabet(tier string) []token {
 		vals = []struct {
 			v uint64
 			w int
-		}{{0, 0}, {1, 0}, {23, 0}, {24, 1}, {256, 2}, {99999, 4}, {100000, 4}, {1 << 32, 8}, {1<<64 - 1, 8}}
+		}{{0, 0}, {1, 0}, {23, 0}, {24, 1}, {256, 2}, {99999, 4}, {100000, 4}, {1 << 32, 8}, {1 << 63, 8}, {1<<64 - 1, 8}}
 	}
 	for m := 0; m < 8; m++ {
 		for _, x := range vals {
